@@ -14,7 +14,7 @@ def alloc_prop(pid, rule, quick, thorough, extra_assume=()):
     return {
         "engine": "alloc",
         "tests": [{"name": "Test" + pid,
-                   "quick": {"checks": quick, "shards": 2},
+                   "quick": {"checks": quick, "shards": 3},
                    "thorough": {"checks": thorough, "shards": 16}}],
         "rule": rule,
         "assumptions": ALLOC_ASSUME + list(extra_assume),
@@ -25,75 +25,75 @@ PROPS = {
     "C04": alloc_prop(
         "C04",
         "rapid draws a pool geometry (IPv4 range of 1..300 [thorough ..4097] addresses anywhere in the address space; IPv6 pool /0../128 with 2^0..2^8 [thorough 2^12] blocks in the regimes page<=64, pool<64<page, pool>=64) and a history of Allocate(hint shape)/Free(outstanding block) calls interpreted against a set model, optionally followed by a concurrent phase (2..8 goroutines, ownership CAS table) and always by a drain that must return exactly the complement of the outstanding set. Non-trivial: a block is re-allocated after a Free, or the case has a concurrent phase. Distinct: FNV-64 of the case JSON.",
-        3000, 40000),
+        8000, 200000),
     "C05": alloc_prop(
         "C05",
         "same generator as C04 with every hint shape (none, free/held block at any inner offset, below/above the pool, other family, unspecified address; masks none/canonical 0..128/non-contiguous/32-bit); each successful allocation is checked with math/big block arithmetic (in pool, aligned, length = max(page, canonical hint length)); Allocate must fail iff all N blocks are outstanding, with ErrNoAddrAvail, and the final drain must yield exactly N-|outstanding| blocks. Non-trivial: exhaustion reached, or the pool straddles the 64-bit boundary (pool<64<page). Distinct: FNV-64 of the case JSON.",
-        3000, 40000),
+        8000, 200000),
     "C06": alloc_prop(
         "C06",
         "histories in which Free may name any well-formed prefix: outstanding blocks, free blocks, any block, sub-prefixes of a block, block-sized (or longer) prefixes 1..2^40 blocks below the pool base or above its end where such an address exists; IPv4: any address in/out of range in 4- or 16-byte form, and an IPv6 address. Free must succeed iff the prefix lies in an outstanding block and then release exactly it; the final drain detects any block released or lost silently. Non-trivial: at least one Free that must fail was issued while blocks were outstanding. Distinct: FNV-64 of the case JSON.",
-        3000, 40000,
+        8000, 200000,
         ["Free of a prefix shorter than the allocation size (a super-block) and of malformed IPNets (nil or mismatched IP/mask) is not generated: the property does not define it",
          "an IPv4 prefix is never passed to the IPv6 allocator's Free"]),
     "C07": alloc_prop(
         "C07",
         "histories biased to hints that name a currently free block (k-th free block incl. the last ones, any inner offset, 4- and 16-byte IPv4 forms, any hint mask); the allocation must be exactly the hinted block. Non-trivial: a hinted Allocate on a free block that is not the first free block of the pool. Distinct: FNV-64 of the case JSON.",
-        3000, 40000),
+        8000, 200000),
     "C20": {
         "engine": "alloc",
         "tests": [{"name": "TestC20",
-                   "quick": {"checks": 100000, "shards": 2},
-                   "thorough": {"checks": 400000, "shards": 16}}],
+                   "quick": {"checks": 200000, "shards": 3},
+                   "thorough": {"checks": 1500000, "shards": 16}}],
         "fuzz": [{"name": "FuzzIPCalc", "seconds": 60}],
         "rule": "rapid draws p in 0..128 (weighted to 0,1,63,64,65,127,128), a base of two 64-bit halves from {0, ~0, 1, 2^k, 2^k-1, ~0<<k, random} masked to /p, x = base + delta (0, 1, block-1, block, m*block+-1, up to the all-ones address) and n from {0..2, 2^p+-1, blocks-to-end+-1, half patterns}; Offset (both argument orders) and AddPrefixes are compared with math/big, plus the inverse law. Non-trivial: borrow or carry across the 64-bit halves, an expected overflow, or p in 63..65. Distinct: FNV-64 of the case JSON.",
         "assumptions": ["base is aligned to /p and x >= base, as the property's quantifier states; both are 16-byte addresses"],
     },
     "C08": {
         "engine": "pd6",
-        "tests": [{"name": "TestC08", "quick": {"checks": 4000, "shards": 2}, "thorough": {"checks": 30000, "shards": 16}}],
+        "tests": [{"name": "TestC08", "quick": {"checks": 8000, "shards": 3}, "thorough": {"checks": 150000, "shards": 16}}],
         "rule": "rapid draws an IPv6 pool (/32../120, 1..64 [thorough ..1024] blocks), 1..4 clients (DUID-LL/LLT/EN/UUID/opaque, distinct raw ids) and a history of 1..12 [thorough ..30] messages of every supported type, direct or relayed (depth 1..2), each with 0..3 IA_PD carrying 0..3 IAPrefix hints (none, wire length 0, length-only, free block, held by self, held by another client, any block, out of pool, longer/shorter than the page, length > 128), optionally followed by a concurrent phase (2..6 goroutines). Requests are built as wire bytes and parsed by the library; every reply is checked by a validity predicate (IA_PD correspondence, in pool, aligned, page <= length <= 128, 0 < preferred <= valid <= 3600 s, NoPrefixAvail when empty) and an owner table block -> client. Non-trivial: >= 2 clients hold a prefix, or NoPrefixAvail was seen, or a hint named a block held by another client, or a concurrent phase ran. Distinct: FNV-64 of the case JSON.",
         "assumptions": ["pools are IPv6 CIDRs as the plugin documents", "which free block a new delegation gets is not asserted", "the response stub is built as server.HandleMsg6 builds it"],
     },
     "C09": {
         "engine": "pd6",
-        "tests": [{"name": "TestC09", "quick": {"checks": 4000, "shards": 2}, "thorough": {"checks": 30000, "shards": 16}}],
+        "tests": [{"name": "TestC09", "quick": {"checks": 8000, "shards": 3}, "thorough": {"checks": 150000, "shards": 16}}],
         "rule": "same domain as C08 with later messages biased to renewal shapes (IA_PD without IAPrefix, IAPrefix of wire length 0 and address ::, exact hints on one/several held prefixes, two or three new prefixes asked in one IA_PD, byte-identical retransmission). Oracle: held[c] = every prefix an earlier reply told client c it holds; an IA_PD with an exact hint on P in held[c] must be answered with P; a hint-less IA_PD with every P in held[c]; a retransmitted message whose IA_PDs are all renew-shaped is answered with nothing outside held[c]; valid lifetime never below what remained (2 s tolerance). Non-trivial: a renewal-shaped IA_PD was sent by a client that holds a prefix. Distinct: FNV-64 of the case JSON.",
         "assumptions": ["'asks for exactly P' means same address bytes and same length as the client was told", "a length-only hint (::/L, L > 0) is not a hint-less request; nothing beyond C08 validity is asserted for it",
                         "the retransmission clause is applied only to messages all of whose IA_PDs are hint-less or exact hints on held prefixes"],
     },
     "C02": {
         "engine": "lease4",
-        "tests": [{"name": "TestC02", "quick": {"checks": 500, "shards": 3}, "thorough": {"checks": 500, "shards": 32, "timeout": 3000}}],
+        "tests": [{"name": "TestC02", "quick": {"checks": 800, "shards": 4}, "thorough": {"checks": 600, "shards": 96, "timeout": 3000}}],
         "rule": "rapid draws a range of 2..200 addresses (word-boundary sizes 63/64/65/127/128/129, placed anywhere incl. 0.0.0.0 and ending at 255.255.255.255), a lease duration, 1..N+3 clients with hardware addresses of 0..16 bytes (decimal-looking bytes because the column has NUMERIC affinity) and a history of 0..16 [thorough ..40] DISCOVER/REQUEST/RESTART steps with hostile hostnames, optionally followed by a concurrent phase (4..12 goroutines, same-client storms); requests are wire-built, the stub is built as HandleMsg4 builds it, the handler comes from Plugin.Setup4 on a real sqlite file. Oracle: reference lease table (client -> address, address -> client): in range, lease-time option, stickiness, uniqueness, refusal iff unknown client and range full. Non-trivial: a repeat of some client AND (a restart, exhaustion or a concurrent phase). Distinct: FNV-64 of the case JSON.",
         "assumptions": ["restarts reuse the same range and lease arguments", "which free address a new client gets is not asserted",
                         "each Setup4 leaks one sqlite handle by design of the plugin, so cases per process are bounded (skipped as 'fd-limit' beyond the budget)"],
     },
     "C03": {
         "engine": "lease4",
-        "tests": [{"name": "TestC03", "quick": {"checks": 300, "shards": 3}, "thorough": {"checks": 400, "shards": 32, "timeout": 3000}},
-                  {"name": "TestC03Expiry", "quick": {"checks": 3, "shards": 4}, "thorough": {"checks": 12, "shards": 16}, "shrinktime": "1s"}],
+        "tests": [{"name": "TestC03", "quick": {"checks": 400, "shards": 4}, "thorough": {"checks": 400, "shards": 96, "timeout": 3000}},
+                  {"name": "TestC03Expiry", "quick": {"checks": 3, "shards": 4}, "thorough": {"checks": 20, "shards": 16}, "shrinktime": "1s"}],
         "rule": "C02's histories with hardware-address lengths uniform in 0..16 and hostnames biased to numeric-looking/NUL/invalid UTF-8/255-byte values; after EVERY step the sqlite file (and journal files if present) is copied and (1) read directly by the harness with database/sql and its own parser of the mac column, (2) reopened with a fresh Setup4, (3) probed with one DISCOVER per known client and one new client. Oracle: rows == model exactly (none lost, changed, extra, duplicated), restart succeeds, every client gets its address back, stored expiry >= floor(t_before_call + lease) - 1. TestC03Expiry adds histories in which 2.1 s of wall-clock time pass between a client's first lease and its renewal, so that the stored expiry must move. Non-trivial: a crash point with a binding whose chaddr length is not 6, or a numeric-looking hostname, or a renewal after time has passed. Distinct: FNV-64 of the case JSON.",
         "assumptions": ["crash points are the quiescent points between datagrams (file copied while no request is in flight); torn sqlite pages are not injected",
                         "the database lives on tmpfs when /dev/shm exists (fsync is a no-op there)"],
     },
     "C14": {
         "engine": "opts",
-        "tests": [{"name": "TestC14", "quick": {"checks": 20000, "shards": 1}, "thorough": {"checks": 200000, "shards": 8}, "count_free": True}],
+        "tests": [{"name": "TestC14", "quick": {"checks": 40000, "shards": 2}, "thorough": {"checks": 2000000, "shards": 16}, "count_free": True}],
         "rule": "every run first enumerates the whole matrix (2 server_id argument pairs x 256 DHCPv6 message types x 9 Server-ID relations {absent, byte-equal, other kind same MAC, same kind other MAC, longer, shorter, EN, UUID, opaque} x relay depth 0..2, and DHCPv4 {DISCOVER, REQUEST} x siaddr {zero, own, other} x option 54 {absent, zero, own, other}); rapid then draws server_id arguments (every accepted type spelling x MAC spelling of 6/8/20 bytes; dotted or v4-mapped IPv4) crossed with the same request dimensions and a stub that may already carry a foreign server id. Oracle: RFC 8415 section 16 table written independently; accepted replies must carry exactly one Server-ID byte-equal to the DUID the harness encodes itself (v4: siaddr and option 54 equal the configured address). Every row is non-trivial; distinct: FNV-64 of the case JSON.",
         "assumptions": ["requests with two Server-ID options or a malformed option 54 are not generated (the statement does not define them)",
                         "for message types the server itself never passes to plugins the handler is given a plain Reply stub"],
     },
     "C17": {
         "engine": "opts",
-        "tests": [{"name": "TestC17", "quick": {"checks": 30000, "shards": 2}, "thorough": {"checks": 200000, "shards": 16}}],
+        "tests": [{"name": "TestC17", "quick": {"checks": 40000, "shards": 3}, "thorough": {"checks": 1000000, "shards": 16}}],
         "rule": "rapid draws an option plugin (netmask, router, dns, mtu, searchdomains, staticroute, lease_time, ipv6only, autoconfigure, nbp, sleep; DHCPv4 and DHCPv6 where supported), an accepted argument vector (1..4 addresses, MTU 0..65535, durations, LDH domain lists with labels up to 63 bytes, IPv4 route lists, canonical URLs over http/https/ftp/tftp/none with and without params=), a request (DISCOVER/REQUEST or SOLICIT/REQUEST/RENEW/INFORMATION-REQUEST/REBIND, relay depth 0..2, request list absent or a shuffled subset of the relevant codes plus filler, option 116 present or not) and a stub (OFFER/ACK, yiaddr assigned or not, plugin's option already present or not). Oracle: the expected option bytes are encoded by the harness (RFC 2132/3442/3397/8925/3646/5970) and the reply, read with the harness's own TLV walker, must equal the stub plus exactly that change (header untouched, nothing else added, each option once); domain lists are compared after an independent RFC 1035 decode. Every case is non-trivial; distinct: FNV-64 of the case JSON.",
         "assumptions": ["a parameter request list that is present but empty, or that lists a code twice, is never generated", "option values longer than 255 bytes are left to C19",
                         "whether nbp stops the chain is not asserted (the statement is silent)"],
     },
     "C19": {
         "engine": "opts",
-        "tests": [{"name": "TestC19", "quick": {"checks": 12000, "shards": 2}, "thorough": {"checks": 15000, "shards": 16}}],
+        "tests": [{"name": "TestC19", "quick": {"checks": 12000, "shards": 4}, "thorough": {"checks": 60000, "shards": 32}}],
         "rule": "rapid draws one of the 21 (built-in plugin, protocol) pairs and an argument vector of arity 0..4 whose tokens come, per position, from pools of valid, boundary and invalid values of the expected kind (IPv4/IPv6/v4-mapped/garbage addresses, CIDRs of both families, dest,gw pairs in every family mix, durations incl. negative/huge/garbage, integers incl. 65535/65536/negative/huge, URLs of every scheme incl. invalid escapes and 70 kB parameters, file names: valid/missing/directory/not-a-database, DUID types, MACs of 5..20 bytes, domain names with labels of 63/64/191/192/255/300 bytes, empty labels, trailing dots, non-ASCII), sometimes from another kind's pool. Setup runs under recover; if it returns a handler, a battery of 13 DHCPv4 or 54 DHCPv6 requests is run: no panic in handler or serialisation, the reply parses, its options equal the reply object's options one by one, and re-serialising gives identical bytes. Non-trivial: every case that was not skipped for a resource bound (rejected at setup, or accepted and run against the battery); distinct: FNV-64 of the case JSON.",
         "assumptions": ["resource bounds of the sandbox, not of the property: prefix pools and ranges <= 2^20 blocks, sleep <= 5 ms, <= 5 autorefresh watchers and a bounded number of sqlite handles per process (skipped cases are counted)",
                         "argument tokens never contain blanks: configuration arguments are whitespace-separated fields"],
@@ -101,9 +101,9 @@ PROPS = {
     "C10": {
         "engine": "static",
         "tests": [
-            {"name": "TestC10Static", "quick": {"checks": 3000, "shards": 2}, "thorough": {"checks": 20000, "shards": 12}},
-            {"name": "TestC10Refresh", "quick": {"checks": 12, "shards": 1}, "thorough": {"checks": 30, "shards": 2}, "env": {"VERIF_MAX_WATCHERS": 35}},
-            {"name": "TestC10Dual", "quick": {"checks": 800, "shards": 1}, "thorough": {"checks": 8000, "shards": 2}},
+            {"name": "TestC10Static", "quick": {"checks": 5000, "shards": 3}, "thorough": {"checks": 150000, "shards": 14}},
+            {"name": "TestC10Refresh", "quick": {"checks": 16, "shards": 1}, "thorough": {"checks": 30, "shards": 2}, "env": {"VERIF_MAX_WATCHERS": 35}},
+            {"name": "TestC10Dual", "quick": {"checks": 2000, "shards": 1}, "thorough": {"checks": 60000, "shards": 2}},
         ],
         "rule": "three generators. Static: a lease file from a grammar (entries with MACs of 6/8/20 bytes in colon/upper/hyphen/dotted spellings from a small pool so duplicates occur, IPv4 dotted or v4-mapped / IPv6 compressed, expanded or upper-case, separators of blanks and tabs, trailing blanks, comments, empty lines, with or without final newline, optionally exactly one malformed line: one field, three fields, bad MAC, bad address, wrong family), set up through Plugin.Setup4/Setup6; the harness's own parser of the rendered text says 'rejected' or gives the mapping; every listed MAC is probed (DHCPv4 chaddr; DHCPv6 via DUID-LL/LLT, via the relay's client link-layer address option, via an EUI-64 peer address; with and without IA_NA) and near-miss / truncated / fixed unlisted MACs must be passed untouched. Refresh: an autorefresh instance and 2..6 rewrites (in place by one pwrite of equal length, or one O_APPEND write), good or malformed: a good rewrite must become visible (10 s + one more event + 20 s), every lookup during the switch serves the old or the new value with a single switch point, a malformed rewrite leaves the previous mapping (polled 100 ms). Dual: both protocols configured in either order, each handler must serve its own file. Non-trivial: static file with >= 2 entries and a duplicate MAC or non-canonical spelling, or a rejected file with >= 3 lines; refresh sequence with a malformed rewrite after a good one; dual case with both files non-empty. Distinct: FNV-64 of the case JSON.",
         "assumptions": ["no whitespace-only lines, indented comments or CR line endings; files are never replaced by rename (the property does not define these)",
@@ -112,8 +112,8 @@ PROPS = {
     "C18": {
         "engine": "conf",
         "tests": [
-            {"name": "TestC18", "quick": {"checks": 6000, "shards": 2}, "thorough": {"checks": 40000, "shards": 12}},
-            {"name": "TestC18Mutated", "quick": {"checks": 4000, "shards": 1}, "thorough": {"checks": 40000, "shards": 4}},
+            {"name": "TestC18", "quick": {"checks": 10000, "shards": 3}, "thorough": {"checks": 80000, "shards": 12}},
+            {"name": "TestC18Mutated", "quick": {"checks": 8000, "shards": 1}, "thorough": {"checks": 80000, "shards": 4}},
         ],
         "fuzz": [{"name": "FuzzConfigLoad", "seconds": 120}],
         "rule": "TestC18: rapid draws a structured configuration (server4/server6 present or not; listen absent / scalar / list of 1..4 items / `interface` alias / both; items built from [address][%zone][:port] with bracketed IPv6 and optionally bracketed IPv4, v4-mapped, wrong family, garbage address, empty/garbage port, multicast with and without zone; plugins as a list of 1..5 one-key maps with 0..4 arguments from a vocabulary of IPs, CIDRs, durations, paths, URLs, MAC-bearing values, or missing / null / empty / scalar / map, or an item with two keys) and renders it to YAML in block or flow style with varying quoting, indentation, key order, comments and separators; config.Load's result is compared with the structure (plugin names, strings.Fields arguments, addresses with wildcard/default port/zone, multicast expansion from the harness's own scan of net.Interfaces). TestC18Mutated: 1..4 byte mutations (truncate, bit flip, insert, delete, duplicate line) of a valid rendering must make Load return, never panic. Thorough adds native fuzzing of arbitrary text. Non-trivial: accepted configuration with >= 2 plugins or >= 1 explicit listen item, or a configuration rejected for a listed reason; mutated text that differs from the original. Distinct: FNV-64 of the case JSON.",
@@ -123,8 +123,8 @@ PROPS = {
     },
     "C01": {
         "engine": "srv",
-        "tests": [{"name": "TestC01", "quick": {"checks": 1500, "shards": 3}, "thorough": {"checks": 8000, "shards": 16}}],
-        "fuzz": [{"name": "FuzzHandle4", "seconds": 90}, {"name": "FuzzHandle6", "seconds": 90}],
+        "tests": [{"name": "TestC01", "quick": {"checks": 3000, "shards": 4}, "thorough": {"checks": 25000, "shards": 16}}],
+        "fuzz": [{"name": "FuzzHandle4", "seconds": 150}, {"name": "FuzzHandle6", "seconds": 150}],
         "rule": "rapid draws a protocol, a chain of validly configured built-in plugins (any subset in example-configuration order, or any permutation prefix; several argument variants; stateful range/prefix/file included; fresh instances per case), a bound or unbound listener, and a history of 1..12 [thorough ..24] datagrams from small pools of clients: structured DHCPv4 packets (any opcode, hlen 0..255, message type any/absent/duplicated/bad length, options 50/54/55/61/82/12/116/generic, pad, missing END, bad cookie, shuffled options) or DHCPv6 messages (any type, 0..3 IA_PD with hints of wire length 0 / length-only / pool blocks / out of pool / length > 128, IA_NA, ORO, server id own/other, rapid commit, relay depth 0..4 with interface-id/remote-id/client link-layer address, missing relay message, outer Relay-Reply), 30% byte-mutated (truncate, bit flip, overwrite, splice with the previous datagram, append, length bytes) and 10% retransmitted. Each datagram is fed through the capture listener under recover and a watchdog; oracle: no panic, returns within 20 s (a goroutine parked on a lock or channel is a wedge), at most one reply, every reply parses, and a well-formed canary request after the history still reaches the plugin chain. Non-trivial: at least one datagram of the history reached the plugin chain. Distinct: FNV-64 of the case JSON. Thorough adds coverage-guided native fuzzing of whole histories (FuzzHandle4/6).",
         "assumptions": ["an unbound listener always receives interface information (listen4/listen6 enable it on unbound sockets), so (unbound, no control message) is never generated",
                         "replies are observed at the capture hook: the WriteTo call of the listener and the serialised Ethernet frame of sendEthernet; the sockets themselves are not exercised",
@@ -132,8 +132,8 @@ PROPS = {
     },
     "C11": {
         "engine": "srv",
-        "tests": [{"name": "TestC11", "quick": {"checks": 20000, "shards": 2, "timeout": 1200}, "thorough": {"checks": 100000, "shards": 12}, "count_free": True, "env": {"VERIF_ENUM": 1}},
-                  {"name": "TestC11Hist", "quick": {"checks": 1500, "shards": 2}, "thorough": {"checks": 8000, "shards": 8}}],
+        "tests": [{"name": "TestC11", "quick": {"checks": 30000, "shards": 3, "timeout": 1200}, "thorough": {"checks": 300000, "shards": 12}, "count_free": True, "env": {"VERIF_ENUM": 1}},
+                  {"name": "TestC11Hist", "quick": {"checks": 2500, "shards": 3}, "thorough": {"checks": 25000, "shards": 8}}],
         "fuzz": [{"name": "FuzzReply4", "seconds": 60}],
         "rule": "every run enumerates all 256 opcodes x 257 message-type values (incl. absent) on a fixed relayed body, then rapid draws structured DHCPv4 datagrams (see C01; 20% byte-mutated) under a chain that is empty, synthetic (pass / NAK-maker / dropper) or a random stateless built-in chain, bound or unbound. Oracle: the harness classifies the datagram (library parse = definition of unparseable; opcode; message type); anything but a parseable BOOTREQUEST of type DISCOVER/REQUEST must produce no output; an output (UDP payload, or the DHCP payload decoded from the layer-2 frame) must be a BOOTREPLY with the request's xid, htype, chaddr, flags, giaddr, byte-equal options 82 and 61, OFFER for DISCOVER and ACK/NAK for REQUEST; with a chain that cannot drop exactly one output exists (UDP paths). TestC11Hist applies the same oracle to every datagram of C01-style histories under chains of built-in plugins that include the stateful ones (small ranges, static leases), so that what plugins do on rare paths (exhaustion) is covered. Non-trivial: parseable datagram (TestC11); at least one datagram of the history answered (TestC11Hist). Distinct: FNV-64 of the case JSON.",
         "assumptions": ["an unbound listener always receives interface information (listen4/listen6 enable it on unbound sockets), so (unbound, no control message) is never generated",
@@ -142,8 +142,8 @@ PROPS = {
     },
     "C12": {
         "engine": "srv",
-        "tests": [{"name": "TestC12", "quick": {"checks": 20000, "shards": 2}, "thorough": {"checks": 100000, "shards": 12}, "count_free": True},
-                  {"name": "TestC12Hist", "quick": {"checks": 1500, "shards": 2}, "thorough": {"checks": 8000, "shards": 8}}],
+        "tests": [{"name": "TestC12", "quick": {"checks": 30000, "shards": 3}, "thorough": {"checks": 300000, "shards": 12}, "count_free": True},
+                  {"name": "TestC12Hist", "quick": {"checks": 2500, "shards": 3}, "thorough": {"checks": 25000, "shards": 8}}],
         "fuzz": [{"name": "FuzzReply6", "seconds": 60}],
         "rule": "every run enumerates message type 0..255 x client-id present/absent x rapid-commit present/absent x relay depth 0..2, then rapid draws structured DHCPv6 datagrams (see C01; 17% byte-mutated) x source address (link-local, global, loopback, ULA) x source port x bound/unbound listener x receiving interface index, with an empty chain. Oracle: output exists iff the innermost message can be extracted, has a supported type and a client id and the outermost layer (if any) is a Relay-Forward; the answer is ADVERTISE for SOLICIT, REPLY carrying Rapid Commit for SOLICIT with it, REPLY otherwise, same transaction id, byte-equal client id; relayed: exactly n Relay-Reply layers (read with the harness's own walker) mirroring link-address, peer-address and Interface-ID per layer; destination = source address and port; link-local source => control message pinned to the bound, else the receiving interface. TestC12Hist applies the same oracle to every datagram of C01-style histories under chains of built-in DHCPv6 plugins (small prefix pools, static leases). Non-trivial: a reply was produced or the datagram was relayed (TestC12); at least one datagram of the history answered (TestC12Hist). Distinct: FNV-64 of the case JSON.",
         "assumptions": ["an unbound listener always receives interface information (listen4/listen6 enable it on unbound sockets), so (unbound, no control message) is never generated",
@@ -153,16 +153,16 @@ PROPS = {
     "C13": {
         "engine": "srv",
         "tests": [
-            {"name": "TestC13", "quick": {"checks": 6000, "shards": 2}, "thorough": {"checks": 50000, "shards": 8}},
-            {"name": "TestC13Builtin", "quick": {"checks": 1000, "shards": 2}, "thorough": {"checks": 6000, "shards": 8}},
+            {"name": "TestC13", "quick": {"checks": 10000, "shards": 3}, "thorough": {"checks": 250000, "shards": 12}},
+            {"name": "TestC13Builtin", "quick": {"checks": 2000, "shards": 3}, "thorough": {"checks": 25000, "shards": 8}},
         ],
         "rule": "TestC13: synthetic plugins registered once through plugins.RegisterPlugin (three dual, two DHCPv4-only, two DHCPv6-only) whose behaviour is chosen by their argument (pass, modify, replace the response object, stop with response, stop with nil, setup error, nil handler); rapid draws configurations of 0..5 entries per protocol in any mix plus unknown names; plugins.LoadPlugins and one request per protocol through the capture listener are compared with an interpreter of the statement (error iff unknown name / failing setup for a configured protocol; handlers = listed plugins supporting the protocol, in order; invocation log in order, each at most once, each seeing the markers its predecessor returned and the original transaction id; stops after the first stop; the sent reply carries the markers of the response returned last; nil => nothing sent). TestC13Builtin: C01's chains and histories with every built-in handler wrapped: a nil response without stop is a violation. Non-trivial: chain of >= 2 handlers with a stop before the end or a replace (TestC13); a datagram reached the chain (TestC13Builtin). Distinct: FNV-64 of the case JSON.",
         "assumptions": ["configurations are built as config.Config values (C18 covers the path from text to that structure)"],
     },
     "C15": {
         "engine": "srv",
-        "tests": [{"name": "TestC15", "quick": {"checks": 10000, "shards": 1}, "thorough": {"checks": 100000, "shards": 8}, "count_free": True},
-                  {"name": "TestC15Seq", "quick": {"checks": 3000, "shards": 1}, "thorough": {"checks": 30000, "shards": 8}}],
+        "tests": [{"name": "TestC15", "quick": {"checks": 20000, "shards": 2}, "thorough": {"checks": 500000, "shards": 10}, "count_free": True},
+                  {"name": "TestC15Seq", "quick": {"checks": 8000, "shards": 2}, "thorough": {"checks": 200000, "shards": 8}}],
         "rule": "every run enumerates the whole table giaddr x ciaddr in {0, 192.0.2.7, 10.10.10.200, 169.254.7.9, 255.255.255.255} x broadcast flag x DISCOVER/REQUEST x synthetic plugin action {offer an address, leave yiaddr unset, turn the reply into a NAK} x listener {bound to the interface with a 6-byte hardware address, unbound with the request arriving on it, unbound with a non-existent receiving index} (900 rows), then rapid draws the same dimensions with random addresses, yiaddr and chaddr; TestC15Seq draws sequences of 2..5 rows (biased to the link-level row) arriving on / bound to different interfaces with a 6-byte hardware address and handled by the same process, so state left by one datagram cannot leak into the next. Oracle: the statement's cascade written independently (giaddr:67, NAK broadcast, ciaddr:68, flag broadcast, else one layer-2 frame with Ethernet dst = chaddr, IPv4 dst = yiaddr, UDP 67->68, DHCP payload = the reply, on the right interface); broadcast/link-local/L2 pinned to the bound or receiving interface, routable destinations not pinned. Every row is non-trivial; distinct: FNV-64 of the case JSON.",
         "assumptions": ["an unbound listener always receives interface information (listen4/listen6 enable it on unbound sockets), so (unbound, no control message) is never generated",
                         "replies are observed at the capture hook: the WriteTo call of the listener and the serialised Ethernet frame of sendEthernet; the sockets themselves are not exercised",
@@ -170,10 +170,10 @@ PROPS = {
     },
     "C16": {
         "engine": "srv",
-        "tests": [{"name": "TestC16", "race": True, "quick": {"checks": 24, "shards": 2, "timeout": 1500}, "thorough": {"checks": 60, "shards": 8, "timeout": 3000}, "env": {"VERIF_MAX_WATCHERS": 24}, "shrinktime": "5s"},
-                  {"name": "TestC16Serve", "race": True, "quick": {"checks": 60, "shards": 1, "timeout": 1500}, "thorough": {"checks": 300, "shards": 4, "timeout": 3000}, "shrinktime": "5s"}],
+        "tests": [{"name": "TestC16", "race": True, "quick": {"checks": 30, "shards": 3, "timeout": 1500}, "thorough": {"checks": 600, "shards": 14, "timeout": 3000}, "env": {"VERIF_MAX_WATCHERS": 6}, "shrinktime": "5s"},
+                  {"name": "TestC16Serve", "race": True, "quick": {"checks": 100, "shards": 1, "timeout": 1500}, "thorough": {"checks": 3000, "shards": 4, "timeout": 3000}, "shrinktime": "5s"}],
         "rule": "rapid draws a scenario: DHCPv4 chain (server_id, file, range, dns, router, netmask, lease_time), DHCPv6 chain (server_id, file, prefix, dns) or both at once; 1..3 static and 2..8 dynamic clients, a range/pool up to two smaller than the dynamic client set, 8..32 [thorough ..64] goroutines each sending 3..12 datagrams (same-client storms), optionally the file plugin with autorefresh while a writer goroutine rewrites the lease files in place; every datagram goes through Capture.Feed (buffer from the pool, parse, recycle, chain) on a -race build. TestC16Serve runs the real Serve loops (ReadFrom into a pooled buffer, reslice, one goroutine per datagram) on loopback UDP sockets: 2..8 client sockets send bursts of 2..12 datagrams of varying length, outputs are captured at WriteTo; every recorded reply must belong to exactly one request (xid <-> chaddr / client id) and a datagram still unanswered after the burst must be answered when sent again alone. Oracles: (1) the Go race detector (any report is a violation); (2) cross-talk: the reply returned for request xid X must carry X and X's chaddr/client id; (3) invariants every serial order satisfies: one address per dynamic client, one client per address, in range, refusal implies the range is full at the end, static clients get the old or the new mapping, one prefix per client for hint-less requests, no prefix delegated to two clients. Non-trivial: at least two datagrams were in flight at once (measured). Distinct: FNV-64 of the case JSON.",
         "assumptions": ["interleavings are sampled by the Go scheduler (GOMAXPROCS = cores, yields injected in front of the chain); the race detector flags unsynchronised access pairs even when the bad interleaving did not occur",
-                        "requests are relayed (giaddr set) so replies take the UDP path", "at most 24 autorefresh watchers per process (inotify instances are never released by the plugin)"],
+                        "requests are relayed (giaddr set) so replies take the UDP path", "at most 6 autorefresh watchers per process (up to 14 processes; the per-user inotify limit is 128) (inotify instances are never released by the plugin)"],
     },
 }
